@@ -107,7 +107,7 @@ func runC04(c *core.Ctx) {
 		}
 		// guarding conditions: conditions of if statements in the arm whose body assigns err / returns
 		guarded := map[string]bool{}
-		ast.Inspect(arm, func(n ast.Node) bool {
+		inspectGuards := func(n ast.Node) bool {
 			is, ok := n.(*ast.IfStmt)
 			if !ok {
 				return true
@@ -138,7 +138,11 @@ func runC04(c *core.Ctx) {
 				return true
 			})
 			return true
-		})
+		}
+		// the arm, and the helpers of the package which do its checks (one level): their rejecting conditions count
+		for _, sn := range armScope(wp, arm) {
+			ast.Inspect(sn, inspectGuards)
+		}
 		var typeNames []string
 		for tn := range nd.fields {
 			typeNames = append(typeNames, tn)
@@ -165,6 +169,19 @@ func runC04(c *core.Ctx) {
 	if resolveSSA == nil {
 		c.Undecided("R04.1", "resolveImports SSA", 0, "function not built")
 	} else {
+		// the linker, and the methods of the instance it calls on its own receiver (one level): linkMemory, linkGlobal …
+		linkFns := []*ssa.Function{resolveSSA}
+		for _, b := range resolveSSA.Blocks {
+			for _, in := range b.Instrs {
+				if call, ok := in.(*ssa.Call); ok {
+					if f := call.Common().StaticCallee(); f != nil && f.Blocks != nil && f.Signature.Recv() != nil && core.NamedOf(f.Signature.Recv().Type()) == miNamed &&
+						len(call.Common().Args) > 0 && call.Common().Args[0] == ssa.Value(resolveSSA.Params[0]) && f != resolveSSA {
+						linkFns = append(linkFns, f)
+					}
+				}
+			}
+		}
+		var recvOf *ssa.Parameter
 		fromExporter := func(v ssa.Value) bool {
 			// load of importedModule.<field>[idx] or importedModule.MemoryInstance where importedModule is not the receiver
 			seen := map[ssa.Value]bool{}
@@ -182,7 +199,7 @@ func runC04(c *core.Ctx) {
 				case *ssa.IndexAddr:
 					return walk(x.X, d+1)
 				case *ssa.FieldAddr:
-					if core.NamedOf(x.X.Type()) == miNamed && x.X != resolveSSA.Params[0] {
+					if core.NamedOf(x.X.Type()) == miNamed && x.X != ssa.Value(recvOf) {
 						return true
 					}
 					return walk(x.X, d+1)
@@ -200,31 +217,34 @@ func runC04(c *core.Ctx) {
 		}
 		st := miNamed.Underlying().(*types.Struct)
 		found := map[string]bool{}
-		for _, b := range resolveSSA.Blocks {
-			for _, in := range b.Instrs {
-				s, ok := in.(*ssa.Store)
-				if !ok {
-					continue
-				}
-				slot := ""
-				switch a := s.Addr.(type) {
-				case *ssa.FieldAddr:
-					if a.X == resolveSSA.Params[0] {
-						slot = st.Field(a.Field).Name()
+		for _, lf := range linkFns {
+			recvOf = lf.Params[0]
+			for _, b := range lf.Blocks {
+				for _, in := range b.Instrs {
+					s, ok := in.(*ssa.Store)
+					if !ok {
+						continue
 					}
-				case *ssa.IndexAddr:
-					if ld, ok := a.X.(*ssa.UnOp); ok {
-						if fa, ok := ld.X.(*ssa.FieldAddr); ok && fa.X == resolveSSA.Params[0] {
-							slot = st.Field(fa.Field).Name()
+					slot := ""
+					switch a := s.Addr.(type) {
+					case *ssa.FieldAddr:
+						if a.X == ssa.Value(recvOf) {
+							slot = st.Field(a.Field).Name()
+						}
+					case *ssa.IndexAddr:
+						if ld, ok := a.X.(*ssa.UnOp); ok {
+							if fa, ok := ld.X.(*ssa.FieldAddr); ok && fa.X == ssa.Value(recvOf) {
+								slot = st.Field(fa.Field).Name()
+							}
 						}
 					}
+					if slot != "Tables" && slot != "Globals" && slot != "MemoryInstance" {
+						continue
+					}
+					found[slot] = true
+					c.Check(fromExporter(s.Val), "R04.1", "import slot "+slot+" receives the exporter's object", s.Pos(), "the stored value is loaded from the exporting instance",
+						"the importer's "+slot+" slot receives a value that is not the exporter's object itself (a copy): writes through one instance are invisible to the other")
 				}
-				if slot != "Tables" && slot != "Globals" && slot != "MemoryInstance" {
-					continue
-				}
-				found[slot] = true
-				c.Check(fromExporter(s.Val), "R04.1", "import slot "+slot+" receives the exporter's object", s.Pos(), "the stored value is loaded from the exporting instance",
-					"the importer's "+slot+" slot receives a value that is not the exporter's object itself (a copy): writes through one instance are invisible to the other")
 			}
 		}
 		for _, slot := range []string{"Tables", "Globals", "MemoryInstance"} {
@@ -416,7 +436,25 @@ func runC04(c *core.Ctx) {
 	if fp := c.Pkg("internal/engine/wazevo/frontend"); fp != nil {
 		finfo := fp.TypesInfo
 		found := false
+		// the store of a global has its own, filtered reload (R04.10): it and the helpers it calls are not call reloads
+		storeSide := map[*ast.FuncDecl]bool{}
+		if setFd := core.FuncDecl(fp, "Compiler", "setWasmGlobalValue"); setFd != nil {
+			storeSide[setFd] = true
+			ast.Inspect(setFd.Body, func(n ast.Node) bool {
+				if call, ok := n.(*ast.CallExpr); ok {
+					if f := core.Callee(finfo, call); f != nil && f.Pkg() == fp.Types {
+						if hd := declOf(fp, f); hd != nil {
+							storeSide[hd] = true
+						}
+					}
+				}
+				return true
+			})
+		}
 		core.AllFuncDecls(fp, func(fd *ast.FuncDecl) {
+			if storeSide[fd] {
+				return
+			}
 			for _, s := range fd.Body.List {
 				rs, ok := s.(*ast.RangeStmt)
 				if !ok {
@@ -673,70 +711,96 @@ func checkRound2C04(c *core.Ctx) {
 		if set == nil || get == nil {
 			c.Undecided("R04.10", "global accessors of the frontend", 0, "setWasmGlobalValue / getWasmGlobalValue not found")
 		} else {
-			// in the imported branch: a loop that force-loads other globals
+			// in the imported branch: a loop that force-loads other globals – inline, or in a helper called there (one level)
 			ok := false
+			narrowed := ""
+			var loops []*ast.RangeStmt
+			loopOwner := map[*ast.RangeStmt]*ast.FuncDecl{}
 			ast.Inspect(set.Body, func(x ast.Node) bool {
 				is, isIf := x.(*ast.IfStmt)
 				if !isIf || !strings.Contains(core.ExprStr(is.Cond), "ImportGlobalCount") {
 					return true
 				}
-				ast.Inspect(is.Body, func(y ast.Node) bool {
-					if rs, isLoop := y.(*ast.RangeStmt); isLoop {
-						ast.Inspect(rs.Body, func(z ast.Node) bool {
-							if call, isC := z.(*ast.CallExpr); isC && core.Callee(info, call) == info.Defs[get.Name] && len(call.Args) == 2 && core.ExprStr(call.Args[1]) == "true" {
-								ok = true
+				for k, sn := range armScope(p, is.Body) {
+					owner := set
+					if k > 0 {
+						owner = nil
+						core.AllFuncDecls(p, func(g *ast.FuncDecl) {
+							if g.Body == sn {
+								owner = g
 							}
-							return true
 						})
+						if owner == get {
+							continue
+						}
 					}
-					return true
-				})
-				return true
-			})
-			// … and the reload is not narrowed: inside that loop, the conditions in front of the reload may only compare the
-			// loop variable with the stored index and with the number of imported globals. Which imported globals alias is
-			// decided at link time, nothing in the module (import names, types) can exclude a pair.
-			narrowed := ""
-			ast.Inspect(set.Body, func(x ast.Node) bool {
-				rs, isLoop := x.(*ast.RangeStmt)
-				if !isLoop {
-					return true
-				}
-				ast.Inspect(rs.Body, func(y ast.Node) bool {
-					is, isIf := y.(*ast.IfStmt)
-					if !isIf {
-						return true
-					}
-					reloads := false
-					ast.Inspect(is.Body, func(z ast.Node) bool {
-						if call, isC := z.(*ast.CallExpr); isC && core.Callee(info, call) == info.Defs[get.Name] {
-							reloads = true
+					ast.Inspect(sn, func(y ast.Node) bool {
+						if rs, isLoop := y.(*ast.RangeStmt); isLoop {
+							loops = append(loops, rs)
+							loopOwner[rs] = owner
 						}
 						return true
 					})
-					if !reloads {
-						return true
+				}
+				return true
+			})
+			for _, rs := range loops {
+				reloadsHere := false
+				ast.Inspect(rs.Body, func(z ast.Node) bool {
+					if call, isC := z.(*ast.CallExpr); isC && core.Callee(info, call) == info.Defs[get.Name] && len(call.Args) == 2 && core.ExprStr(call.Args[1]) == "true" {
+						reloadsHere = true
 					}
-					ast.Inspect(is.Cond, func(z ast.Node) bool {
-						switch w := z.(type) {
-						case *ast.CallExpr:
-							narrowed = "`" + core.ExprStr(w) + "`"
-						case *ast.SelectorExpr:
-							if w.Sel.Name != "ImportGlobalCount" {
-								if _, isPkgOrRecv := w.X.(*ast.Ident); !isPkgOrRecv || w.Sel.Name != "m" {
-									// c.m (the module) is the only other selector expected
-									if core.ExprStr(w) != "c.m" {
-										narrowed = "`" + core.ExprStr(w) + "`"
-									}
+					return true
+				})
+				if !reloadsHere {
+					continue
+				}
+				ok = true
+				// … and the reload is not narrowed: inside that loop, the conditions (in front of the reload, or of a
+				// continue) may only compare the loop variable with the stored index and with the number of imported globals.
+				// Which imported globals alias is decided at link time, nothing in the module (import names, types) can
+				// exclude a pair. Locals stand for the expressions they are bound to.
+				localDef := map[types.Object]ast.Expr{}
+				if ow := loopOwner[rs]; ow != nil {
+					ast.Inspect(ow.Body, func(n ast.Node) bool {
+						if as, isAs := n.(*ast.AssignStmt); isAs && as.Tok == token.DEFINE && len(as.Lhs) == len(as.Rhs) {
+							for k, l := range as.Lhs {
+								if id, isID := l.(*ast.Ident); isID && info.Defs[id] != nil {
+									localDef[info.Defs[id]] = as.Rhs[k]
 								}
 							}
 						}
 						return true
 					})
+				}
+				var scan func(e ast.Node, d int)
+				scan = func(e ast.Node, d int) {
+					ast.Inspect(e, func(z ast.Node) bool {
+						switch w := z.(type) {
+						case *ast.CallExpr:
+							if tv, isConv := info.Types[w.Fun]; isConv && tv.IsType() {
+								return true // a conversion
+							}
+							narrowed = "`" + core.ExprStr(w) + "`"
+						case *ast.SelectorExpr:
+							if w.Sel.Name != "ImportGlobalCount" && core.ExprStr(w) != "c.m" {
+								narrowed = "`" + core.ExprStr(w) + "`"
+							}
+						case *ast.Ident:
+							if def, isLocal := localDef[info.Uses[w]]; isLocal && d < 3 {
+								scan(def, d+1)
+							}
+						}
+						return true
+					})
+				}
+				ast.Inspect(rs.Body, func(y ast.Node) bool {
+					if is, isIf := y.(*ast.IfStmt); isIf {
+						scan(is.Cond, 0)
+					}
 					return true
 				})
-				return true
-			})
+			}
 			if ok && narrowed != "" {
 				c.Violate("R04.10", "the reload of the other imported mutable globals is not narrowed", set.Pos(),
 					"the condition in front of the reload also depends on "+narrowed+": which imported globals are the same object is only known at link time (one global can be imported twice, directly and through a re-export under another module name), so any filter beyond 'imported, and not the one just stored' leaves a stale alias")
